@@ -27,21 +27,44 @@ MODULE_FILES = {
     'builder': 'src/builder.rs',
 }
 
-
-# harness modules that use helpers of other harness modules
-MODULE_DEPS = {
-    'decoder': ['vlq'],
-    'hermes': ['vlq', 'types'],
-    'encoder': [],
+# harness file key -> (host module of the crate, name of the injected child module,
+#                      harness files it needs, has lifted fragments)
+HFILES = {
+    'vlq': ('vlq', 'verif_h', [], False),
+    'utils': ('utils', 'verif_h', [], False),
+    'types': ('types', 'verif_h', [], False),
+    'types_flat': ('types', 'verif_h_flat', ['types'], True),
+    'encoder': ('encoder', 'verif_h', [], False),
+    'decoder': ('decoder', 'verif_h', ['vlq'], False),
+    'decoder_seg': ('decoder', 'verif_h_seg', ['vlq', 'decoder'], True),
+    'decoder_line': ('decoder', 'verif_h_line', ['vlq', 'decoder'], True),
+    'sourceview': ('sourceview', 'verif_h', [], False),
+    'hermes': ('hermes', 'verif_h', ['vlq', 'types'], False),
+    'hermes_fm': ('hermes', 'verif_h_fm', ['vlq'], True),
+    'ram_bundle': ('ram_bundle', 'verif_h', [], False),
 }
 
 
-def with_deps(modules):
+def group_of(hfile):
+    """Build group: files with lifted fragments are built in a scratch copy of their own."""
+    return hfile if HFILES[hfile][3] else 'base'
+
+
+def qualified_name(hfile, harness):
+    host, modname, _, _ = HFILES[hfile]
+    return '%s::%s::%s' % (host, modname, harness)
+
+
+def with_deps(files):
     out = []
-    for m in modules:
-        for d in MODULE_DEPS.get(m, []) + [m]:
-            if d not in out:
-                out.append(d)
+
+    def add(f):
+        for d in HFILES[f][2]:
+            add(d)
+        if f not in out:
+            out.append(f)
+    for f in files:
+        add(f)
     return out
 
 
@@ -67,8 +90,8 @@ def make_scratch(tag):
     return d
 
 
-def copy_repo(scratch):
-    dst = os.path.join(scratch, 'repo')
+def copy_repo(scratch, name='repo'):
+    dst = os.path.join(scratch, name)
     subprocess.check_call(['rsync', '-a', '--exclude', '/target', '--exclude', '.git',
                            REPO + '/', dst + '/'])
     return dst
@@ -90,6 +113,7 @@ def inject(repo_copy, modules, lift_specs, extra_src=None):
     with open(lib, 'w', encoding='utf-8') as f:
         f.write(lib_text)
     for m in with_deps(modules):
+        host, modname, _, _ = HFILES[m]
         hfile = os.path.join(HARNESS_DIR, 'h_%s.rs' % m)
         with open(hfile, encoding='utf-8') as f:
             htext = f.read()
@@ -110,9 +134,9 @@ def inject(repo_copy, modules, lift_specs, extra_src=None):
         gen = os.path.join(src, 'verif_h_%s.rs' % m)
         with open(gen, 'w', encoding='utf-8') as f:
             f.write(htext)
-        target = os.path.join(repo_copy, MODULE_FILES[m])
+        target = os.path.join(repo_copy, MODULE_FILES[host])
         with open(target, 'a', encoding='utf-8') as f:
-            f.write('\n#[cfg(kani)]\n#[path = "verif_h_%s.rs"]\npub(crate) mod verif_h;\n' % m)
+            f.write('\n#[cfg(kani)]\n#[path = "verif_h_%s.rs"]\npub(crate) mod %s;\n' % (m, modname))
     return lifts
 
 
